@@ -24,7 +24,7 @@ ASSUMPTIONS = ['a CRLF pair is one line break (leftmost pairs first), then LFCR 
 BOUNDS = {'quick': 'all strings of length <= 4 x 16 flag combinations; accept_any: length <= 4, min_length in 0..5, min_words in 0..3; validation: length <= 4 over a 12-character alphabet, 8 patterns',
           'thorough': 'all strings of length <= 6 (path budget per flag combination)'}
 OUTSIDE = ['case folding of cased non-ASCII letters beyond the 12 listed pairs (the symbolic alphabet of the case-insensitive harnesses is ASCII plus caseless characters)', 'strings longer than the bound', 'non-ASCII characters changed by lower() in case-insensitive mode', 'regex features beyond the translated subset']
-DEADLINE = {'quick': 170, 'thorough': 2400}
+DEADLINE = {'quick': 600, 'thorough': 2400}
 FUNCS = ['StringGrader.clean_input', 'StringGrader.check_response', 'StringGrader.construct_message', 'StringGrader.__call__', 'ItemGrader.check', 'AbstractGrader.__call__']
 STUBS = ['stringgrader.str -> identity on symbolic strings', 'stringgrader.re -> ReShim (re.match / re.sub on symbolic strings through the validated regex translator)', 'voluptuous isinstance shadow']
 EXPECTED = ['Cat  Dog', ' a b ', 'x', '', 'A\tb']
